@@ -19,7 +19,7 @@ from harness import seams
 from harness.seams import CTX, StopLoop
 from harness.world import World, HarnessError, Wedged
 
-PASS_TIMEOUT_S = 120.0
+PASS_TIMEOUT_S = 30.0
 
 
 class _Runner:
@@ -97,7 +97,13 @@ class ContinuousWorld(World):
             if not r.done.acquire(timeout=PASS_TIMEOUT_S):
                 ep.alive = False
                 ep.dead_reason = ('Wedged', 'the pass did not come back to select() within %.0f s' % PASS_TIMEOUT_S, '')
-                raise Wedged('pass did not end')
+                # the thread is spinning inside the daemon's code: make it unwind (an exception raised asynchronously in
+                # that thread), or it would go on eating a core for the rest of the run
+                import ctypes
+                r.stop = True
+                ctypes.pythonapi.PyThreadState_SetAsyncExc(ctypes.c_ulong(r.thread.ident), ctypes.py_object(StopLoop))
+                r.done.acquire(timeout=5)
+                # (reported like in the stepping mode: the endpoint is dead, with reason 'Wedged')
         finally:
             CTX.select_hook = None
             self.step_dh_calls = CTX.dh_calls
